@@ -212,7 +212,7 @@ def run_wiring(ctx):
             f = ctx.fn(rule, name="try_from_bytes", self_adt=adt)
             g = ctx.guards(f)
             acc = g.accept_defs(("err",))
-            good = len(acc) == 1 and acc[0].payload is not None and Agg(fld, fpcall("montgomery", AnyLocal()))(acc[0].payload)
+            good = len(acc) == 1 and acc[0].payload is not None and Agg(fld, fpcall("montgomery", lambda x: AnyLocal()(x) or Bin("BitAnd", AnyLocal(), Local(2))(x)))(acc[0].payload)
             req(ctx, rule, "%s:%s:montgomery" % (rule, f.id), good, "bytes -> Self(montgomery(int))", "decoded integers are not converted with montgomery()", loc=f.loc)
             # little-endian assembly: int |= (bytes[i] as W) << (i << 3)
             asm = False
